@@ -163,8 +163,12 @@ impl Array {
             } else {
                 let sum_len = a.dimensions[a.dimensions.len() - a_index];
                 assert!(
-                    b.dimensions.len() < b_index
-                        || sum_len == b.dimensions[b.dimensions.len() - b_index],
+                    if b.dimensions.len() >= b_index {
+                        sum_len == b.dimensions[b.dimensions.len() - b_index]
+                    } else {
+                        // a vector on the right is a single row, unless it forms a dot product
+                        a.dimensions.len() >= 2 || sum_len == b.dimensions[0]
+                    },
                     "error: the dimensions {:?}, and {:?} are not compatible",
                     a.dimensions,
                     b.dimensions
